@@ -941,4 +941,52 @@ def campaigns(tier):
     return cs
 
 
-PREDICATES = {}
+def _has_annotated_union(node) -> bool:
+    """an Annotated[...] recipe node whose (possibly again annotated) primary type is a Union"""
+    if isinstance(node, dict):
+        if node.get("k") == "annotated":
+            inner = (node.get("a") or [None])[0]
+            while isinstance(inner, dict) and inner.get("k") == "annotated":
+                inner = (inner.get("a") or [None])[0]
+            if isinstance(inner, dict) and inner.get("k") == "union":
+                return True
+        return any(_has_annotated_union(v) for v in node.values())
+    if isinstance(node, list):
+        return any(_has_annotated_union(v) for v in node)
+    return False
+
+
+def _pred_annotated_union_source(case, failure) -> bool:
+    """C16-Annotated-union-source-not-split in any disguise: the *source* side contains Annotated[A | B, m]; the
+    bucket-naming model of this check sometimes attributes such a case to another (already repaired) deviation."""
+    if not (failure.bucket.startswith("DEV-") or "compat-mismatch" in failure.bucket or failure.bucket.startswith("law-") or failure.bucket.startswith("pipeline-")):
+        return False
+    d = case["data"]
+    src = d.get("a") if "a" in d else [f.get("ret") for f in d.get("funcs", [])] if "funcs" in d else d
+    return _has_annotated_union(src)
+
+
+def _has_constrained_typevar(node) -> bool:
+    if isinstance(node, dict):
+        if node.get("k") == "typevar" and node.get("constraints"):
+            return True
+        return any(_has_constrained_typevar(v) for v in node.values())
+    if isinstance(node, list):
+        return any(_has_constrained_typevar(v) for v in node)
+    return False
+
+
+def _pred_constrained_typevar_required(case, failure) -> bool:
+    """C16-constrained-TypeVar-miss-falls-through in any disguise: the *required* side contains a constrained TypeVar
+    (a miss does not return False but falls through to weaker comparisons, so incompatible sources are accepted)."""
+    if not (failure.bucket.startswith("DEV-") or "compat-mismatch" in failure.bucket or failure.bucket.startswith("law-") or failure.bucket.startswith("pipeline")):
+        return False
+    d = case["data"]
+    req = d.get("b") if "b" in d else [p[1] for f in d.get("funcs", []) for p in f.get("params", [])] if "funcs" in d else d
+    return _has_constrained_typevar(req)
+
+
+PREDICATES = {
+    "annotated_union_on_source_side": _pred_annotated_union_source,
+    "constrained_typevar_on_required_side": _pred_constrained_typevar_required,
+}
